@@ -326,6 +326,41 @@ func (s *seqState) submitRevision(helper string, confirm bool) {
 	b.Count("revisions_confirmed_on_chain", 1)
 }
 
+// appendPastProofHeight: the host's chain has reached the proof height of the confirmed contract (no block above it may
+// revise the contract any more) and the renter asks for an append against the host's current, validly signed price
+// table. Either the constructor refuses, or what it returns - signed by both parties - is accepted by consensus at
+// that tip. The contract itself is left as it was.
+func (s *seqState) appendPastProofHeight() {
+	if s.dead || s.c.childHeight() <= s.fc.ProofHeight || s.c.childHeight() > s.fc.ExpirationHeight {
+		return
+	}
+	hp := s.prices
+	hp.TipHeight = s.c.cs.Index.Height
+	hp.Signature = s.host.sk.SignHash(hp.SigHash())
+	req := rhp4.RPCAppendSectorsRequest{Prices: hp, Sectors: []types.Hash256{randHash(s.r)}}
+	if req.Validate(s.host.pk) != nil {
+		return
+	}
+	s.b.Eval(1)
+	s.b.Count("appends_requested_at_or_past_the_proof_height", 1)
+	s.b.Distinct("append-past-proof-height", s.c.cs.Index.Height == s.fc.ProofHeight, s.c.cs.Index.Height == s.fc.ExpirationHeight, s.fc.Capacity > s.fc.Filesize)
+	var rev types.V2FileContract
+	var err error
+	if p, msg := call(func() { rev, _, err = rhp4.ReviseForAppendSectors(s.fc, hp, randHash(s.r), 1) }); p {
+		s.violate("C17/v4/ReviseForAppendSectors/price-table-tip-at-or-past-the-proof-height/panics", msg, map[string]any{"prices": jsonOf(hp)})
+		return
+	}
+	if err != nil {
+		s.b.Count("appends_at_or_past_the_proof_height_refused", 1)
+		return
+	}
+	s.signContract(&rev)
+	txn := types.V2Transaction{FileContractRevisions: []types.V2FileContractRevision{{Parent: s.elem.Copy(), Revision: rev}}}
+	if verr := consensus.ValidateV2Transaction(consensus.NewMidState(s.c.cs), txn); verr != nil {
+		s.violate("C17/consensus-reject/revision/ReviseForAppendSectors/price-table-tip-at-or-past-the-proof-height", fmt.Sprintf("proof height %d, expiration height %d, price table tip %d (the chain tip): ReviseForAppendSectors succeeded and the signed revision is rejected by ValidateV2Transaction: %v", s.fc.ProofHeight, s.fc.ExpirationHeight, hp.TipHeight, verr), map[string]any{"prices": jsonOf(hp), "revision": jsonOf(rev)})
+	}
+}
+
 // ---------------------------------------------------------------------------
 // formation
 
@@ -1342,6 +1377,12 @@ func runSequence(b *harness.B, r *rand.Rand, base *chain, id int) {
 			// proof height: it is asked for all the same every third time - Validate has to refuse it (what it admits
 			// goes to consensus like any other result)
 			s.plan = nil
+			if r.IntN(2) == 0 {
+				s.appendPastProofHeight()
+				if s.dead {
+					break
+				}
+			}
 			if r.IntN(3) == 0 {
 				b.Count("refreshes_requested_past_the_proof_height", 1)
 				s.opRefresh(r.IntN(2) == 0)
